@@ -802,3 +802,82 @@ def check_graph_whole(ctx):
                 ctx.undecided('GRAPH-WHOLE', func, construct,
                               at=func.where(call))
     ctx.floor('GRAPH-WHOLE', n, 2, 'graphs handed to execute_tasks')
+
+
+def _shrinks_a_graph(program, func, expr, depth=0):
+    """The expression evaluates to a graph from which nodes / edges were
+    removed: a shrinker call on a (copy of a) graph, or a call of a package
+    function that returns a local it applied a shrinker to."""
+    for call in [c for c in ast.walk(expr) if isinstance(c, ast.Call)]:
+        if call_name(call) in GRAPH_SHRINKERS and call_name(call) not in (
+                'remove', 'pop', 'discard', 'clear'):
+            return call
+        if depth < 2:
+            cands, how = program.resolve_call(func, call)
+            if how == 'by-unique-name':
+                continue
+            for cand in cands[:2]:
+                if not cand.module.name.startswith('valjean.cosette') or \
+                        cand is func:
+                    continue
+                rets = [n.value for n in ast.walk(cand.node)
+                        if isinstance(n, ast.Return) and n.value is not None]
+                shrunk = {dotted(receiver(c)) for c in calls_in(cand.node)
+                          if call_name(c) in GRAPH_SHRINKERS and
+                          call_name(c) not in ('remove', 'pop', 'discard',
+                                               'clear') and
+                          receiver(c) is not None}
+                if any(txt(r) in shrunk for r in rets):
+                    return call
+                for ret in rets:
+                    found = _shrinks_a_graph(program, cand, ret, depth + 1)
+                    if found is not None:
+                        return call
+    return None
+
+
+def check_graph_rebound(ctx):
+    """Inside the backend the graph that supplies `deps` to the decision is
+    the graph it was given: re-binding it to a reduced copy (transitive
+    reduction, "edges that add no ordering constraint" removed) is unsound
+    because a task can be final (SKIPPED) BEFORE its own dependencies are:
+    the dependent whose direct edge was dropped then sees only final
+    dependencies and starts while the dropped one still runs."""
+    program = ctx.program
+    n = 0
+    for func in program.all_functions():
+        if not func.module.name.startswith(BACKENDS):
+            continue
+        graph_vars = {p for p in func.params if 'graph' in p}
+        if not graph_vars:
+            continue
+        n += 1
+        bad = False
+        for node in ast.walk(func.node):
+            if isinstance(node, ast.Assign) and any(
+                    isinstance(t, ast.Name) and t.id in graph_vars
+                    for t in node.targets):
+                found = _shrinks_a_graph(program, func, node.value)
+                tgt = [t.id for t in node.targets
+                       if isinstance(t, ast.Name)][0]
+                if found is not None:
+                    bad = True
+                    ctx.violated(
+                        'GRAPH-WHOLE', func,
+                        f'{func.name}: {tgt} re-bound to a reduced graph: '
+                        f'{txt(node.value)[:50]}', at=func.where(node),
+                        detail='the decision no longer sees every '
+                               'dependency of a task: an edge "implied by a '
+                               'longer path" still matters when a task on '
+                               'that path is SKIPPED early')
+                else:
+                    ctx.undecided('GRAPH-WHOLE', func,
+                                  f'{func.name}: {tgt} re-bound: '
+                                  f'{txt(node.value)[:50]}',
+                                  at=func.where(node))
+                    bad = True
+        if not bad:
+            ctx.holds('GRAPH-WHOLE', func,
+                      f'{func.name}: {sorted(graph_vars)} used as given',
+                      at=func.where(), nontrivial=False)
+    ctx.floor('GRAPH-WHOLE-backend', n, 2, 'backend functions taking a graph')
